@@ -577,7 +577,7 @@ def generate_enum(seed, tier='quick', index=0):
     spec = gen_settings.gen_settings_spec(rng, max_n=2 if tier == 'quick' else 3)
     return {'property': PROPERTY, 'engine': ENGINE, 'seed': seed, 'settings': [spec], 'phases': [],
             'env_seed': s.int_seed('env'), 'config': 'enum', 'enum': {'site': index % 3,
-                                                                       'stride_min_points': 24 if tier == 'quick' else 150}}
+                                                                       'stride_min_points': 24 if tier == 'quick' else 100}}
 
 
 def _execute_enum(trace):
@@ -773,12 +773,12 @@ ASSUMPTIONS = ['R-conn: per-pair cap = 0 (excluded) / 1 (an end forbids repetiti
                'open-ended nodes are generated non-repeating so that no undocumented parallel limit matters.',
                'Transparency is judged against a recomputation under the same fault plan and seeds.',
                '<= 3x3 connectors, degrees <= 3, <= 4 existence patterns.']
-WALL_BUDGET = {'quick': 100.0, 'thorough': 1500.0}
+WALL_BUDGET = {'quick': 100.0, 'thorough': 700.0}
 DETERMINISM_RERUNS = {'quick': 4, 'thorough': 16}
 
 
 def jobs(tier, batch_seed):
     from simkit.driver import std_jobs
     if tier == 'thorough':
-        return std_jobs([('generate_enum', 90), ('generate', 20000), ('generate_disk', 6000)], batch_seed)
+        return std_jobs([('generate_enum', 32), ('generate', 20000), ('generate_disk', 6000)], batch_seed)
     return std_jobs([('generate_enum', 2), ('generate', 130), ('generate_disk', 40)], batch_seed)
